@@ -43,7 +43,7 @@ ACCESSORS = ["convert", "convert_array", "manager", "manager_nm", "hamiltonian",
              "molecule_set", "mode_ctor", "mode_set", "coupling", "coupling_matrix", "corfce_reorg", "specdens_reorg",
              "agg_hamiltonian", "rwa_skeleton", "freqaxis_to_timeaxis", "length", "transition_width",
              "diabatic_coupling", "adiabatic_coupling", "cutoff_coupling", "state_energy", "abs_rwa", "cfm_reorg",
-             "hierarchy_lam", "ham_diagonalize"]
+             "hierarchy_lam", "ham_diagonalize", "corfce_values_reorg", "cfm_direct"]
 
 CALLS = ["build1", "build2", "build_modes", "rebuild", "diagonalize", "build_raises", "mol_hamiltonian", "mol_dipole",
          "mol_sbi", "rt_stR", "rt_stR_td", "rt_stF", "rt_cRF", "rt_unknown_raises", "redfield_rates", "foerster_rates",
@@ -330,6 +330,32 @@ def _check_matrix(case, ctx):
             with qr.energy_units(u2):
                 got = cfm.get_reorganization_energy(0, 0)
             cmp("conversion", got, orc.convert(lam, u1, u2))
+        elif acc == "corfce_values_reorg":
+            # a correlation function defined by values: its declared reorganisation energy is converted like any other
+            ta = qr.TimeAxis(0.0, 60, 2.0)
+            lam = float(1 + case["v"] % 300)
+            vals = numpy.exp(-numpy.array(ta.data) / 50.0) * (1.0 - 0.5j) * 1e-5
+            with qr.energy_units(u1):
+                f = qr.CorrelationFunction(ta, dict(ftype="OverdampedBrownian", reorg=lam, cortime=50.0, T=300.0, matsubara=5),
+                                           values=vals.copy())
+            cmp("stored-value", f.lamb, orc.to_internal(lam, u1))
+            with qr.energy_units(u2):
+                cmp("conversion", f.get_reorganization_energy(), orc.convert(lam, u1, u2))
+        elif acc == "cfm_direct":
+            # correlation functions registered in a CorrelationFunctionMatrix while other units are current
+            from quantarhei.qm.corfunctions import CorrelationFunctionMatrix
+            ta = qr.TimeAxis(0.0, 60, 2.0)
+            lam = float(1 + case["v"] % 300)
+            with qr.energy_units("1/cm"):
+                cfs = [qr.CorrelationFunction(ta, dict(ftype="OverdampedBrownian", reorg=lam + 7.0 * k, cortime=50.0, T=300.0,
+                                                       matsubara=5)) for k in range(2)]
+            cm = CorrelationFunctionMatrix(ta, 2, 2)
+            with qr.energy_units(u1):
+                for k in range(2):
+                    cm.set_correlation_function(cfs[k], [(k, k)])
+            with qr.energy_units(u2):
+                got = [cm.get_reorganization_energy(0, 0), cm.get_reorganization_energy(1, 1)]
+            cmp("conversion", got, orc.convert(numpy.array([lam, lam + 7.0]), "1/cm", u2))
         elif acc == "ham_diagonalize":
             M = numpy.array([[0.0, 0.0, 0.0], [0.0, v, float(case["v2"])], [0.0, float(case["v2"]), v + 5.0]])
             with qr.energy_units(u1):
